@@ -54,6 +54,7 @@ type Ctx struct {
 	rules  map[string]string // rule id -> one-line description
 	configs []string
 	extra  map[string]any
+	override *loadOpts // thorough tier: re-run under another build configuration
 }
 
 func newCtx(prop, tier string) *Ctx {
@@ -354,6 +355,30 @@ func (c *Ctx) writeEvidence(nOK, nBad, nUnd, nKnown int) {
 		"known_findings":      nKnown,
 		"checker_cmd":         fmt.Sprintf("%s/run check %s --tier %s", c.VerifDir, c.Prop, c.Tier),
 		"trusted_base":        []string{"go/types", "golang.org/x/tools/go/ssa v0.29.0", "golang.org/x/tools/go/packages", "the rule tables in /verif/checker"},
+	}
+	if wf := os.Getenv("PERFCHECK_WITNESS"); wf != "" {
+		if b, err := os.ReadFile(wf); err == nil {
+			var w []map[string]string
+			if json.Unmarshal(b, &w) == nil {
+				ok, missed, skipped, falseAlarm := 0, 0, 0, 0
+				for _, x := range w {
+					switch {
+					case strings.HasPrefix(x["verdict"], "ok"):
+						ok++
+					case strings.HasPrefix(x["verdict"], "MISSED"):
+						missed++
+					case strings.HasPrefix(x["verdict"], "FALSE-ALARM"):
+						falseAlarm++
+					default:
+						skipped++
+					}
+				}
+				cov["self_test"] = map[string]any{
+					"what":        "informational, not part of the verdict: stored witness edits (witness/<id>.tsv) and independently seeded mutations (seeded/<id>-*/patch.diff) applied one at a time to scratch copies of /repo's current working tree; each copy is checked with this property's rules",
+					"as_expected": ok, "missed": missed, "false_alarms": falseAlarm, "skipped": skipped, "results": w,
+				}
+			}
+		}
 	}
 	for k, v := range c.extra {
 		cov[k] = v
